@@ -9,6 +9,8 @@ if ! git -C "$wt" apply /verif/seeded/$id/patch.diff; then echo "patch does not 
 for p in "$@"; do
   out=$(VERIF_REPO="$wt" VERIF_DIR=/verif VERIF_EVIDENCE_DIR="$wt/.verif_ev" VERIF_REPLAY_DIR="$wt/.verif_rp" /verif/bin/verifcheck $p $tier 2>&1); rc=$?
   echo "== seed=$id check=$p tier=$tier exit=$rc"
-  echo "$out" | grep -E "^(VIOLATION|KNOWN-FINDING|UNCONFIRMED|INCONCLUSIVE|ENGINE-ERROR|HARNESS-VACUOUS|TRANSLATOR)|^  harness=" | cut -c1-260 | head -12
+  # verdict lines first (a long run of INCONCLUSIVE lines must not push them out of view)
+  echo "$out" | grep -E "^VIOLATION|^  harness=" | cut -c1-260 | head -8
+  echo "$out" | grep -E "^(KNOWN-FINDING|UNCONFIRMED|INCONCLUSIVE|ENGINE-ERROR|HARNESS-VACUOUS|TRANSLATOR)" | cut -c1-260 | head -6
 done
 git -C /repo worktree remove --force "$wt"
